@@ -71,6 +71,15 @@ class Encoder(object):
             for (xt, x, yt, y) in ((at, a, bt, b), (bt, b, at, a)):
                 if isinstance(yt, int) and yt >= 0 and (yt & (yt + 1)) == 0:
                     return x % z3.IntVal(yt + 1)
+                if isinstance(yt, int) and yt < 0 and ((-yt) & (-yt - 1)) == 0:
+                    # x & -(2^k)  ==  x - (x mod 2^k)      (two's complement, any sign of x)
+                    return x - x % z3.IntVal(-yt)
+                if isinstance(yt, int) and yt > 0:
+                    low = yt & -yt                       # 2^k
+                    run = yt // low
+                    if (run & (run + 1)) == 0:
+                        # contiguous run of ones (2^m - 1) << k :  (x mod 2^(m+k)) - (x mod 2^k)
+                        return x % z3.IntVal((run + 1) * low) - x % z3.IntVal(low)
         (al, ah), (bl, bh) = bounds(at, self.bmemo), bounds(bt, self.bmemo)
         if op == "and":
             # one non-negative bounded operand is enough to bound the result: reduce the other modulo 2^n
